@@ -50,6 +50,16 @@ CHECKS = {
    text="Every (colour type, depth) x w in 1..9 x h in 1..6 x 3 strides with position-coded pixels, every content over {00,01,ff} for w*h <= 4, every size whose raw length lies within +-24 bytes of the first three flush thresholds and of the separate-IEND point, dense sweeps, all-0xFF images, and sequences of 2 and 3 Encode calls on one Encoder over all ordered pairs/triples of 8 representative configurations. Oracle: image/png.Decode gives the same dimensions and pixels; an independent walker validates chunk lengths, CRC-32s, one stored block per IDAT with correct LEN/NLEN, BFINAL only on the last, zlib header, Adler-32, nothing after IEND.",
    note="image/png is the 'standard decoder'. 8-bit v and 16-bit v*0x101 count as the same pixel value. After an Encode whose Writer failed, the next Encode must be valid; the failed call itself must only not panic.",
    ref="DESIGN.md section 4 C19"),
+ "C08": dict(cat="model_checking", engine="cserve",
+   technique="explicit-state BFS over call sequences on the real generated C objects (clone + one call + hash through the C state server), every explored history co-simulated with an explicit life-cycle / call-sequence model written from the documentation",
+   text="For each std package (quick 9, thorough all 30) the C freshly generated from the working tree is compiled with ASan+UBSan and explored breadth-first to depth 4 (6): operations = every initialize form (right, wrong sizeof, wrong version, ALREADY_ZEROED over zeroed / garbage / live memory, LEAVE_INTERNAL_BUFFERS_UNINITIALIZED, re-initialisation, none), every interface method with source in {complete, prefix, corrupt, NULL, closed-empty} x destination in {ample, empty, NULL}, image decoders DIC/DFC/DF/restart_frame/tell_me_more in every order; states deduplicated by object+buffer hashes. Model: RAW / READY / SUSPENDED(k) / DISABLED with the exact #base status strings, and the image call-sequence machine of doc/std/image-decoders-call-sequence.md; the buffer contract (index order, monotone ri/wi, source bytes and already-written destination bytes unchanged) is computed in C around every call.",
+   note="Std packages only (generated test programs not yet included). Only the methods of the six base interfaces are reachable. One seed input per package. Where the documentation is silent nothing is demanded. Token destinations cannot observe 'already written tokens unchanged'. Known finding: tell_me_more out of order answers '#base: no more information' instead of '#base: bad call sequence' in 12 decoders.",
+   ref="DESIGN.md section 4 C08, 10.1"),
+ "C20": dict(cat="exploration", engine="detmc",
+   technique="exhaustive enumeration of environment configurations around the real compiler: every creation-order permutation of a package's files (directory enumeration order), every range-over-map site of the compiler rewritten (go/ast overlay) to iterate in a forced order (asc/desc/rot1; singles, thorough pairs and triples), GOMAXPROCS / env / cwd variants, with byte comparison of all generated output; plus generated == committed",
+   text="Regenerates all of std (and four hand-written multi-file packages) with the working tree's compiler under every configuration and compares SHA-256 of every generated file: directory order (every permutation of creation order on tmpfs for three std packages, raw Readdirnames orders recorded), map iteration order (all 10 range-over-map sites of lang/*, internal/cgen, cmd/wuffs*, gen.go found at check time and forced to asc/desc/rot1 through an overlay twin; per-site hit counters show which loops really ran with >= 2 keys), GOMAXPROCS {1,2,16}, TZ/LANG/HOME/USER/TMPDIR/hostname/cwd/root-path variants, re-runs. Equalities: regenerated monolithic release == release/c/wuffs-unsupported-snapshot.c; go run gen.go == lang/check/data.go.",
+   note="Map order is explored at 1 (thorough: up to 3) deviating sites with three orders, not all permutations. Wall-clock time is not varied. Go scheduler/select randomness is only sampled by re-runs and GOMAXPROCS.",
+   ref="DESIGN.md section 4 C20, section 3 E7"),
 }
 
 NOT_YET = "check not built yet in this session (design in DESIGN.md section 4); no claim made"
@@ -83,8 +93,14 @@ def main():
             "add_only": True,
         },
         "engines": [
-            {"name": "libmc", "path": "checks/", "serves_properties": sorted(CHECKS.keys()),
+            {"name": "libmc", "path": "checks/", "serves_properties": sorted(k for k, v in CHECKS.items() if v["engine"] == "libmc"),
              "kind_free_text": "hand-written bounded-exhaustive enumerators (odometers over stated alphabets, fault-point enumeration, explicit-state search) driving the real code, one Go program per property under checks/<id>"},
+            {"name": "gosched", "path": "checks/c14/ overlay/racvsched/", "serves_properties": ["C14"],
+             "kind_free_text": "cooperative scheduler + go/ast rewriter of lib/rac/conc_reader.go (go build -overlay); stateless DFS over schedules with preemption/deviation bounds and happens-before state pruning"},
+            {"name": "cserve", "path": "csrc/ internal/cserve/", "serves_properties": sorted(k for k, v in CHECKS.items() if v["engine"] == "cserve") + ["C17"],
+             "kind_free_text": "C state server compiled against C freshly generated from the working tree (ASan+UBSan / plain with allocator counters / AVOID_CPU_ARCH variants); holds cloneable object slots and executes single calls with the buffer contract checked in C; the exploration (BFS/DFS, visited sets, chunk scripts) is in Go"},
+            {"name": "detmc", "path": "checks/c20/", "serves_properties": ["C20"],
+             "kind_free_text": "determinism explorer: go/ast map-range rewriter (overlay twins with forced iteration orders), tmpfs directory-order permutations, environment variation, byte comparison of generated output"},
         ],
         "checks": checks,
         "not_applicable": na,
